@@ -576,13 +576,12 @@ impl<'a> KMergeIterator<'a> {
 					if table.is_before_range(&query_range) || table.is_after_range(&query_range) {
 						continue;
 					}
-					// Skip tables outside timestamp range (if specified)
-					if let Some((ts_start, ts_end)) = ts_range {
-						let props = &table.meta.properties;
-						if let (Some(newest), Some(oldest)) =
-							(props.newest_key_time, props.oldest_key_time)
-						{
-							if newest < ts_start || oldest > ts_end {
+					// Skip tables older than the timestamp range (if specified). A table newer
+					// than the range is still read: a hard delete or replace in it erases
+					// versions inside the range.
+					if let Some((ts_start, _)) = ts_range {
+						if let Some(newest) = table.meta.properties.newest_key_time {
+							if newest < ts_start {
 								continue;
 							}
 						}
@@ -602,13 +601,12 @@ impl<'a> KMergeIterator<'a> {
 				let end_idx = level.find_last_overlapping_table(&query_range).max(start_idx);
 
 				for table in &level.tables[start_idx..end_idx] {
-					// Skip tables outside timestamp range (if specified)
-					if let Some((ts_start, ts_end)) = ts_range {
-						let props = &table.meta.properties;
-						if let (Some(newest), Some(oldest)) =
-							(props.newest_key_time, props.oldest_key_time)
-						{
-							if newest < ts_start || oldest > ts_end {
+					// Skip tables older than the timestamp range (if specified). A table newer
+					// than the range is still read: a hard delete or replace in it erases
+					// versions inside the range.
+					if let Some((ts_start, _)) = ts_range {
+						if let Some(newest) = table.meta.properties.newest_key_time {
+							if newest < ts_start {
 								continue;
 							}
 						}
@@ -1476,31 +1474,13 @@ impl<'a> HistoryIterator<'a> {
 		Ok(false)
 	}
 
-	/// With ts_range, seek to (next_user_key, ts_end) to skip entries above range.
-	/// Without ts_range, linearly scan past entries with the same user_key.
+	/// Moves past the remaining entries of the current user key.
 	/// Returns true if positioned on a new user_key, false if iterator exhausted.
+	///
+	/// The entries of the next key that lie above a timestamp range are not skipped
+	/// by a seek: a hard delete or replace among them erases versions inside the range.
 	fn advance_to_next_user_key(&mut self) -> Result<bool> {
-		// Only optimize with ts_range
-		let ts_end = match self.ts_range {
-			Some((_, end)) => end,
-			None => return self.skip_to_next_user_key(),
-		};
-
-		let current = self.current_user_key.clone();
-
-		// Advance to find next user_key
-		while self.inner_valid() {
-			let next_key_vec = self.inner_key().user_key().to_vec();
-			if next_key_vec != current {
-				// Found next key - seek to (next_key, ts_end) to skip entries above range
-				let seek_key =
-					InternalKey::new(next_key_vec, u64::MAX, InternalKeyKind::Set, ts_end);
-				self.inner.seek(&seek_key.encode())?;
-				return Ok(self.inner_valid());
-			}
-			self.inner_next()?;
-		}
-		Ok(false)
+		self.skip_to_next_user_key()
 	}
 
 	// --- Bounds checking ---
@@ -1598,14 +1578,14 @@ impl<'a> HistoryIterator<'a> {
 				continue;
 			}
 
-			// Skip entries outside timestamp range
+			// Entries outside timestamp range. One above the range is not listed, but it still
+			// takes part in the barrier logic below: a hard delete or replace newer than the range
+			// has erased the versions inside it.
+			let mut above_ts_range = false;
 			if let Some((ts_start, ts_end)) = self.ts_range {
 				if timestamp > ts_end {
-					// Above range - skip, next entries might be in range
-					self.inner_next()?;
-					continue;
-				}
-				if timestamp < ts_start {
+					above_ts_range = true;
+				} else if timestamp < ts_start {
 					// Below range - all remaining entries for this key are also below
 					// (timestamps are ordered descending within a key).
 					// Skip to next user_key with optimization for B+tree.
@@ -1649,6 +1629,12 @@ impl<'a> HistoryIterator<'a> {
 			if is_replace {
 				self.barrier_seen = true;
 				// Don't skip - fall through to output
+			}
+
+			// Above the timestamp range - skip, next entries might be in range
+			if above_ts_range {
+				self.inner_next()?;
+				continue;
 			}
 
 			// Rule 5: Soft DELETE (tombstone) filtering
@@ -1718,6 +1704,7 @@ impl<'a> HistoryIterator<'a> {
 			is_hard_delete: bool,
 			is_replace: bool,
 			is_tombstone: bool,
+			in_ts_range: bool,
 			encoded_key: Vec<u8>,
 			value: Vec<u8>,
 		}
@@ -1745,8 +1732,11 @@ impl<'a> HistoryIterator<'a> {
 			let repeated = last_version == Some((seq_num, timestamp));
 			last_version = Some((seq_num, timestamp));
 
-			if visible && in_ts_range && !repeated {
+			// A version outside the timestamp range is not listed, but a hard delete or replace
+			// above the range still erases the versions inside it: keep it for the barrier search.
+			if visible && !repeated {
 				versions.push(VersionInfo {
+					in_ts_range,
 					is_hard_delete: key_ref.is_hard_delete_marker(),
 					is_replace: key_ref.is_replace(),
 					is_tombstone: key_ref.is_tombstone(),
@@ -1800,6 +1790,10 @@ impl<'a> HistoryIterator<'a> {
 		for v in versions.into_iter().skip(valid_start_idx) {
 			// Skip HARD_DELETE markers (shouldn't happen after valid_start_idx, but be safe)
 			if v.is_hard_delete {
+				continue;
+			}
+
+			if !v.in_ts_range {
 				continue;
 			}
 
@@ -1932,17 +1926,9 @@ impl LSMIterator for HistoryIterator<'_> {
 		self.direction = MergeDirection::Forward;
 		self.reset_all_state();
 
-		if self.ts_range.is_some() {
-			// Seek to (lower_bound or empty, ts_end) to skip entries above range
-			let ts = self.ts_range.map(|(_, end)| end).unwrap_or(u64::MAX);
-			let seek_key = InternalKey::new(
-				self.lower_bound.clone().unwrap_or_default(),
-				u64::MAX,
-				InternalKeyKind::Set,
-				ts,
-			);
-			self.inner.seek(&seek_key.encode())?;
-		} else if let Some(ref lower) = self.lower_bound {
+		// Also with a timestamp range the scan starts at the newest version of the first
+		// key: versions above the range are not listed but take part in the barrier logic.
+		if let Some(ref lower) = self.lower_bound {
 			let seek_key =
 				InternalKey::new(lower.clone(), u64::MAX, InternalKeyKind::Set, u64::MAX);
 			self.inner.seek(&seek_key.encode())?;
